@@ -1,12 +1,11 @@
-SPECIFICATION TSpec
+SPECIFICATION WSpec
 CONSTANTS
-  MaxIf = 6
-  MaxGen = 9
+  MaxIf = 3
+  MaxGen = 3
   RestartRule = "stop_old"
   PortRule = "opened"
   ShutdownRule = "close_always"
-  TeardownOrder = "any"
-CONSTRAINT Track
+  TeardownOrder = "interfaces_first"
 INVARIANT OneResponder
-POSTCONDITION Verdicts
+INVARIANT AnswersTrue
 CHECK_DEADLOCK FALSE
